@@ -330,7 +330,9 @@ COQ_CHAINS = [  # (chain id in FlushModel.zchain, argv, retaining)
     (7, ["put", "$z = NR", "then", "tac", "then", "head", "-n", "3"], True),
     # output consisting of print TEXT: the writer's per-item flush must follow strings as well as records
     (8, ["put", "-q", "print \"p\" . $i"], False),
-    (9, ["put", "print \"p\" . $i", "then", "head", "-n", "3"], False),
+    # chain 9 of FlushModel.zchain (put 'print ...' then head -n 3) is NOT compared delivery by delivery: whether the text of a
+    # record fed after head is satisfied still appears depends on how fast the done flag travels upstream (the known
+    # finding output-statement-upstream-of-early-exit); comparing it made the check schedule-dependent.
 ]
 
 
